@@ -274,11 +274,14 @@ impl<T: El> SetWorld<T> {
                 let present = self.r.contains_key(&lk);
                 let mut called = false;
                 let mut made = 0u64;
+                // arg 1: the closure builds a value that is NOT equal to the looked-up one (the smallest
+                // absent id other than k): that value is what the set must then hold, findable as itself
+                let alt: u32 = if op.arg == 1 && !T::ZST { (0..self.next_key).find(|a| *a != k && !self.r.contains_key(a)).unwrap_or(k) } else { k };
                 let g = window(|| {
                     let x = self.s.get_or_insert_with(&kk, |q| {
                         called = true;
                         tick(Cb::Closure);
-                        let n = harness(|| T::mk(q.id(), true));
+                        let n = harness(|| T::mk(if alt != k { alt } else { q.id() }, true));
                         made = n.obj();
                         n
                     });
@@ -288,8 +291,9 @@ impl<T: El> SetWorld<T> {
                 if present {
                     vcheck_eq!("get_or_insert_with", g, (lk, self.r[&lk]));
                 } else {
-                    vcheck_eq!("get_or_insert_with", g, (lk, made));
-                    self.r.insert(lk, made);
+                    let la = T::norm(alt);
+                    vcheck_eq!("get_or_insert_with", g, (la, made));
+                    self.r.insert(la, made);
                 }
                 self.note_key(k);
             }
